@@ -7,6 +7,7 @@ import (
 	"bytes"
 	"context"
 	"encoding/json"
+	"errors"
 	"fmt"
 	"io"
 	"os"
@@ -54,8 +55,32 @@ type RepoObs struct {
 // recording wrapper: logs every Fetch (digest) so that "content used before refusal" is observable
 type recTarget struct {
 	oras.GraphTarget
-	mu      sync.Mutex
-	fetched []digest.Digest
+	mu           sync.Mutex
+	fetched      []digest.Digest
+	failManifest bool // armed: the next upload of an image manifest fails (a full disk, a dropped request), once
+}
+
+func (t *recTarget) Push(ctx context.Context, expected ocispec.Descriptor, content io.Reader) error {
+	t.mu.Lock()
+	fail := t.failManifest && expected.MediaType == ocispec.MediaTypeImageManifest
+	if fail {
+		t.failManifest = false
+	}
+	t.mu.Unlock()
+	if fail {
+		return errors.New("harness: no space left on device")
+	}
+	return t.GraphTarget.Push(ctx, expected, content)
+}
+
+// Delete is offered where the store underneath offers it (an OCI layout does)
+func (t *recTarget) Delete(ctx context.Context, target ocispec.Descriptor) error {
+	if d, ok := t.GraphTarget.(interface {
+		Delete(ctx context.Context, target ocispec.Descriptor) error
+	}); ok {
+		return d.Delete(ctx, target)
+	}
+	return errors.New("harness: this store cannot delete")
 }
 
 func (t *recTarget) Fetch(ctx context.Context, target ocispec.Descriptor) (rc io.ReadCloser, err error) {
@@ -298,6 +323,27 @@ func runSigRepo() int {
 				must(err)
 				rec.manifest = d
 			case "foreignType":
+				if mix(*flagSeed, c.ID, fmt.Sprintf("failed-push-%d", n))%2 == 1 {
+					// first, an ATTEMPT that fails: somebody pushes a signature with the very envelope bytes of the latest stored
+					// signature (a deterministic signer signing again) and the upload of its manifest fails.  A push that fails adds no
+					// item to the history: what is stored stays listed and stays fetchable, byte for byte
+					for k := len(items) - 1; k >= 0; k-- {
+						if in.Items[k].Kind == "sig" {
+							target.mu.Lock()
+							target.failManifest = true
+							target.mu.Unlock()
+							ann2 := copyMap(ann)
+							ann2[ocispec.AnnotationCreated] = "2031-01-01T00:00:00Z"
+							_, _ = guarded(func() {
+								_, _, _ = repo.PushSignature(ctx, items[k].mt, items[k].blob, decorate(subjects[in.Items[k].S], 0), ann2)
+							})
+							target.mu.Lock()
+							target.failManifest = false
+							target.mu.Unlock()
+							break
+						}
+					}
+				}
 				rec.manifest = img(foreignArtifactType(c.ID+n), &subj, []ocispec.Descriptor{layer(blob, "application/spdx+json")}, 0)
 			case "subjDigest":
 				alt.Digest = digest.FromString("an artifact that differs from " + it.S + " only by digest")
